@@ -309,7 +309,7 @@ pub fn run(ctx: &Ctx) -> (Stats, Report) {
     let s = pt_run(
         "C16/add_days",
         seed,
-        (if ctx.thorough { 4_000_000 } else { 400_000 }) / THREADS as u32,
+        (if ctx.thorough { 32_000_000 } else { 1_600_000 }) / THREADS as u32,
         THREADS,
         || (0u8..4, strat::raw(Kind::Ts), prop_oneof![3 => strat::any_f64(), 1 => (-400_000_000_000i64..=400_000_000_000, -3i64..=3).prop_map(|(k, d)| ((k * 1_000_000 + 500_000 + d) as f64) / 86_400_000_000.0)]),
         |(which, x, f): &(u8, i128, f64), st: &mut Stats| {
